@@ -166,8 +166,9 @@ pub fn run(sim: &Sim, _idx: u64) {
     let (method, version, ct): (Method, Version, Option<&str>) = match kind {
         0 => (Method::POST, sim.pick(&[Version::HTTP_11, Version::HTTP_2]), Some(web_ct)),
         1 => (sim.pick(&[Method::GET, Method::PUT, Method::DELETE, Method::OPTIONS, Method::HEAD]), sim.pick(&[Version::HTTP_11, Version::HTTP_2]), Some(web_ct)),
-        2 => (sim.pick(&[Method::GET, Method::POST]), sim.pick(&[Version::HTTP_11, Version::HTTP_10]), sim.pick(&[Some("application/grpc"), Some("text/html"), None, Some("application/grpc-web-foo")])),
-        _ => (sim.pick(&[Method::GET, Method::POST, Method::PUT]), Version::HTTP_2, sim.pick(&[Some("application/grpc"), Some("text/html"), None, Some("application/grpc+proto")])),
+        // (content-types that merely resemble a grpc-web type — parameters, spacing, case, prefixes — are "other")
+        2 => (sim.pick(&[Method::GET, Method::POST]), sim.pick(&[Version::HTTP_11, Version::HTTP_10]), sim.pick(&[Some("application/grpc"), Some("text/html"), None, Some("application/grpc-web-foo"), Some("application/grpc-web; charset=utf-8"), Some("application/grpc-web-text; charset=utf-8"), Some("application/grpc-web+proto;q=1"), Some("Application/Grpc-Web"), Some("application/grpc-web+json")])),
+        _ => (sim.pick(&[Method::GET, Method::POST, Method::PUT]), Version::HTTP_2, sim.pick(&[Some("application/grpc"), Some("text/html"), None, Some("application/grpc+proto"), Some("application/grpc-web; charset=utf-8"), Some("application/grpc-web-text; charset=utf-8"), Some("application/grpc-web-text+proto ;x"), Some("application/grpc-webx")])),
     };
     let outer_bytes: Vec<u8> = if kind == 0 && text_req { indep::b64_encode(&req_grpc, true).into_bytes() } else { req_grpc.clone() };
     let chunks = cut_bytes(sim, &outer_bytes, &[0, 4, 8]);
